@@ -325,6 +325,14 @@ func writerAlphabet(p *Program, fn *ssa.Function) (escapes []string, goQuote str
 				if op == nil || *op == nil {
 					continue
 				}
+				// escapes kept in a read-only table
+				if tab, _, isOK, field := tableLookup(p, *op); tab != nil && !isOK && field == "" {
+					for _, e := range tab.entries {
+						if s, ok := constString(e.val); ok && strings.HasPrefix(s, `\`) && len(s) >= 2 {
+							set[s[:2]] = true
+						}
+					}
+				}
 				if s, ok := constString(*op); ok && strings.HasPrefix(s, `\`) && len(s) >= 2 {
 					e := s[:2]
 					set[e] = true
